@@ -66,6 +66,8 @@ type Sim struct {
 	Height    int32
 	Blocks    map[string]*Block
 	tokHist   map[string][]verTok
+	slowMu    sync.Mutex
+	slow      map[string][]time.Duration
 	CoreLog   []*Ev
 	TxEvents  map[string][]*Ev
 	TxBlock   map[string]string // tx -> block hash the node reports as confirmed ("" = not found)
@@ -242,7 +244,52 @@ func FieldsOf(in *Intent) []map[string]interface{} {
 
 // ---------------------------------------------------------------- HTTP
 
+// SlowNext makes the next n requests of a kind arrive late: the handler sleeps d BEFORE it looks at the simulator's
+// state, so the answer is as fresh as any other (a slow network path, not a stale node).
+func (s *Sim) SlowNext(kind string, n int, d time.Duration) {
+	s.slowMu.Lock()
+	if s.slow == nil {
+		s.slow = map[string][]time.Duration{}
+	}
+	for i := 0; i < n; i++ {
+		s.slow[kind] = append(s.slow[kind], d)
+	}
+	s.slowMu.Unlock()
+}
+
+func kindOfPath(p string) string {
+	switch {
+	case strings.HasPrefix(p, "/events/contract/") && strings.HasSuffix(p, "/current-count"):
+		return "count"
+	case strings.HasPrefix(p, "/events/contract/"):
+		return "page"
+	case strings.HasPrefix(p, "/events/tx-id/"):
+		return "tx-events"
+	case p == "/blockflow/chain-info":
+		return "height"
+	case strings.HasPrefix(p, "/blockflow/headers/"):
+		return "header"
+	case p == "/blockflow/is-block-in-main-chain":
+		return "main-chain"
+	case p == "/transactions/status":
+		return "tx-status"
+	case p == "/contracts/multicall-contract":
+		return "multicall"
+	}
+	return "other"
+}
+
 func (s *Sim) handle(w http.ResponseWriter, r *http.Request) {
+	k := kindOfPath(r.URL.Path)
+	s.slowMu.Lock()
+	var d time.Duration
+	if q := s.slow[k]; len(q) > 0 {
+		d, s.slow[k] = q[0], q[1:]
+	}
+	s.slowMu.Unlock()
+	if d > 0 {
+		time.Sleep(d)
+	}
 	s.mu.Lock()
 	defer s.mu.Unlock()
 	p := r.URL.Path
